@@ -1457,8 +1457,12 @@ where
                     //   processing, so if the client closed its writer-side it means that it won't
                     //   send more requests.
                     // - The user requested to not allow half-closures
+                    //
+                    // When reading was stopped by a request parse error (not by the peer), the
+                    // requests in flight and the error response are still written first.
                     if inner_p.flags.contains(Flags::READ_DISCONNECT)
-                        && (!inner_p.config.h1_allow_half_closed() || state_is_none)
+                        && ((!inner_p.config.h1_allow_half_closed() && inner_p.error.is_none())
+                            || state_is_none)
                     {
                         trace!("read half closed; start shutdown");
                         inner_p.flags.insert(Flags::SHUTDOWN);
